@@ -1,15 +1,17 @@
 import LexgenModel.Proofs.ClassEval
 import LexgenModel.Proofs.Simplify
 import LexgenModel.Proofs.BisimSound
+import LexgenModel.Proofs.RuleSetLang
 /-!
 # C02 — Regex operators denote their documented languages
 
-Proved: the class fragment (characters, bracket sets and ranges, `_`, built-ins, `|` between
-classes, `#`) denotes exactly `classDen` at every code point; removal of terminal states and
-concatenation of rule-set automata preserve the accept list reached by every word.
-`C02_lang_partial` (ledger): the Thompson construction and the subset construction are not yet
-proved in Lean; they are covered on every run by the complete per-program comparison of the model's
-DFA with the macro's dumped DFA and by language-equivalent twins against a derivative-based matcher.
+Proved: `C02_language` — the DFA the model of `compile_rule_set` builds for a rule set accepts,
+after ANY word over the extended alphabet, exactly the rules whose regex DENOTES that word (`den`:
+the README's reading of every operator), in rule order (Thompson construction `addRegex_correct` +
+subset construction `nfaToDfa_correct_partial`, composed in `ruleSet_lang`); the class fragment
+denotes exact sets at every code point; removal of terminal states preserves accept lists; the
+per-program DFA comparison used as the tie is sound. Interchangeability of regexes with equal
+denotation is a corollary: `den` is all the theorem depends on.
 -/
 namespace Lexgen
 
@@ -34,6 +36,40 @@ theorem C02_simplify_preserves (d : DFA Nat) (entries : List (String × Nat)) (d
     (s : Nat) (hs : s < d.length) (hk : (emptyStates d).contains s = false) (w : List Nat) :
     (reach d' (.st (newIdx d s)) w).map (Auto.acc d') = (reachN d s w).map (fun t => (d.st t).accepting) :=
   simplify_reach d entries d' entries' h hT s hs hk w
+
+/-- The DFA of a rule set accepts after every word exactly the rules whose regex denotes it, in
+priority order; where it is dead no rule matches. (`regexPiecesOK`: bracket ranges non-inverted —
+the well-formedness the property grants.) -/
+theorem C02_language (rules : List CoreRule) (hre : ∀ r ∈ rules, regexPiecesOK r.re) (nfa : NFA)
+    (h : buildNfa rules = .ok nfa) (d : DFA Nat) (hd : nfaToDfa nfa = some d) (w : List Sym) :
+    match reachSym d 0 w with
+    | some t => (d.st t).accepting = matchingAccs rules w
+    | none => matchingAccs rules w = [] :=
+  ruleSet_lang rules hre nfa h d hd w
+
+/-- `compile_rule_set` builds exactly that automaton from the rule set's items (variables
+substituted with the bindings in scope, right contexts numbered sequentially). -/
+theorem C02_rule_set_compilation (items : List RuleOrBinding) (b : Bindings) (ctxs : List (DFA Nat)) (d : DFA Nat) (ctxs' : List (DFA Nat))
+    (h : compileRuleSet items b ctxs = .ok (d, ctxs')) :
+    ∃ rules nfa, coreRules items b ctxs.length = some rules ∧ buildNfa rules = .ok nfa ∧ nfaToDfa nfa = some d :=
+  compileRuleSet_core items b ctxs d ctxs' h
+
+/-- Regexes that denote the same language are interchangeable: the accept lists of the two rule
+sets coincide after every word (both are `matchingAccs`, which depends on `den` only). -/
+theorem C02_interchange (rules1 rules2 : List CoreRule)
+    (hsame : rules1.map (fun r => (r.ctx, r.value)) = rules2.map (fun r => (r.ctx, r.value)))
+    (hden : ∀ w, matchingAccs rules1 w = matchingAccs rules2 w)
+    (h1 : ∀ r ∈ rules1, regexPiecesOK r.re) (h2 : ∀ r ∈ rules2, regexPiecesOK r.re)
+    (n1 n2 : NFA) (hn1 : buildNfa rules1 = .ok n1) (hn2 : buildNfa rules2 = .ok n2)
+    (d1 d2 : DFA Nat) (hd1 : nfaToDfa n1 = some d1) (hd2 : nfaToDfa n2 = some d2) (w : List Sym)
+    (t1 t2 : Nat) (hr1 : reachSym d1 0 w = some t1) (hr2 : reachSym d2 0 w = some t2) :
+    (d1.st t1).accepting = (d2.st t2).accepting := by
+  have a := ruleSet_lang rules1 h1 n1 hn1 d1 hd1 w
+  have b := ruleSet_lang rules2 h2 n2 hn2 d2 hd2 w
+  rw [hr1] at a
+  rw [hr2] at b
+  simp only at a b
+  rw [a, b, hden w]
 
 /-- The per-program comparison of the model's DFA with the macro's dumped DFA is sound: when the
 product exploration `bisim` (run by `lexmodel stage` on every corpus program) succeeds, the two
